@@ -1,22 +1,34 @@
 """C18 - BLE broadcast notifications are accepted only if authentic and fresh."""
 from __future__ import annotations
 
+import hashlib
 import itertools
+import json
 import struct
 from unittest.mock import MagicMock
 
 from cryptography.hazmat.primitives.ciphers.aead import ChaCha20Poly1305
 
-from harness.common import Ctx, Driver, compare_with_model, hx, load_corpus
+from harness import refacc
+from harness.common import Ctx, Driver, compare_with_model, hx, load_corpus, unhx
 
 ID = "C18"
 RULE = ("histories of advertisements over {genuine last+1, last+k (k<100), last, last-k, beyond the window (+100, +150), wrong key, wrong advertising id (other accessory), single-bit "
         "corruptions of payload and 4-byte tag, inner counter != nonce counter, too-short payloads}, all characteristic formats and boundary values, start state numbers incl. 0 and near "
-        "65535; EXHAUSTIVE to depth 4 (quick) / 5 (thorough) over a 9-symbol alphabet + random to length 50. non-trivial = distinct (start, history)")
+        "65535; EXHAUSTIVE to depth 4 (quick) / 5 (thorough) over a 9-symbol alphabet + random to length 50. non-trivial = distinct (start, history); "
+        "dbhist: histories over TWO pairings of one controller (own advertising id, key, database, state number, listeners) in which a pairing's accessory database is REPLACED between "
+        "notifications - restore_accessories_state on the live pairing, a controller restart from the characteristic cache followed by a restore, and the library's own re-read of the GATT "
+        "database after a configuration-number bump in the regular advertisement (fake radio, real pair-verify) - with instance ids that change format (all 72 ordered format pairs), disappear "
+        "and appear, and in which the broadcast key is REGENERATED (the application re-subscribes and re-populates over a fresh connection: sealings under the previous key, fresh or replayed, "
+        "no longer authenticate; a pairing that had no key gets one), interleaved with genuine, replayed, stale, far, forged, cross-accessory and unrouted advertisements and listeners that connect, disconnect and raise; oracle = the harness's "
+        "own bookkeeping of the CURRENT database / last accepted number / connected listeners and an independent reading of the sealed value bytes")
 TRUSTED = ["cryptography ChaCha20Poly1305 (full tag truncated to 4 bytes) as the accessory's sealing"]
 ASSUMPTIONS = ["a 32-bit tag is forgeable with probability 2^-32 per candidate: outside the symbolic model",
                "bleak BLEDevice/AdvertisementData are duck-typed mocks; the fall-back poll (_process_disconnected_events) is replaced by a recorder",
-               "an authentic notification naming an iid the cached database does not contain raises out of the callback: counted under C19 (callback must not raise), not exercised here"]
+               "an authentic notification naming an iid the cached database does not contain raises out of the callback: counted under C19 (callback must not raise), not exercised here",
+               "dbhist: the BLE radio is a scripted GATT accessory at the AIOHomeKitBleakClient interface (establish_connection patched); restore_accessories_state is always given the pairing's "
+               "own broadcast key and the last accepted state number; the regular advertisement announcing a new configuration number carries the last accepted state number; a GATT re-read the "
+               "controller does not complete ends the history without a verdict (counted as dbhist/replace/gatt-incomplete)"]
 EXPLANATION = "Lean theorems C18_* over the candidate-window automaton with a symbolic partial-tag AEAD (accept => authentic+fresh, reject => unchanged, no replay over histories, value decoding); differential tie through BleController._device_detected"
 
 KEY = bytes(range(32))
@@ -91,6 +103,943 @@ def canon_value(fmt, v):
     if fmt == "string":
         return "s:" + hx(v.encode())
     return "h:" + (v if v else "-")
+
+
+# ================================================================ histories in which the accessory database is REPLACED
+# Two paired accessories on one controller (own advertising id, own broadcast key, own database, own state number, own
+# listeners).  Between notifications the database of a pairing is replaced through the library's own paths; instance ids
+# change format, disappear and appear.  Everything the oracle uses is the harness's own bookkeeping: which database is
+# current, the last accepted state number, who listens, and an independent reading of the sealed 8 value bytes.
+PAIRS = {
+    "A": {"pid": "AA:BB:CC:DD:EE:FF", "adv": ADV, "key": KEY},
+    "B": {"pid": "AA:BB:CC:DD:EE:01", "adv": bytes.fromhex("aabbccddee01"), "key": bytes(range(64, 96))},
+}
+ALL_FORMATS = list(FORMATS)
+POOL = list(range(10, 30))           # instance ids that come and go
+SERVICE_TYPES = ["00000043-0000-1000-8000-0026BB765291", "00000049-0000-1000-8000-0026BB765291", "0000008A-0000-1000-8000-0026BB765291"]
+CHAR_TYPES = ["%08X-0000-1000-8000-0026BB765291" % n for n in (0x25, 0x08, 0xCE, 0x13, 0x2F, 0x11, 0x10, 0x68, 0x22, 0x1D, 0x6B, 0x6D, 0x79, 0x8F, 0x0D, 0x0F, 0x26, 0x73, 0x75, 0xB0, 0xB1, 0xB2)] + \
+             ["E863F10A-079E-48FF-8F27-9C2605A29F52", "E863F10C-079E-48FF-8F27-9C2605A29F52", "E863F10D-079E-48FF-8F27-9C2605A29F52"]
+
+
+def db_formats(db):
+    """harness bookkeeping: instance id -> format of a database description [[service iid, service type, [[iid, type, format], ...]], ...]"""
+    return {int(c[0]): c[2] for s in db for c in s[2]}
+
+
+# what every HAP-BLE accessory has besides its own services: the pairing service and the protocol information service (with the service signature
+# characteristic through which the broadcast key is generated)
+FIXED_SERVICES = [[9000, "00000055-0000-1000-8000-0026BB765291", [[9001, "0000004E-0000-1000-8000-0026BB765291", "data"]]],
+                  [9100, "000000A2-0000-1000-8000-0026BB765291", [[9101, "000000A5-0000-1000-8000-0026BB765291", "data"]]]]
+
+
+def db_accessories(db):
+    return [{"aid": 1, "services": [{"iid": int(s[0]), "type": s[1], "characteristics": [
+        {"iid": int(c[0]), "type": c[1], "format": c[2], "perms": ["pr", "ev"], "value": None} for c in s[2]]} for s in list(db) + FIXED_SERVICES]}]
+
+
+def gen_db(rng, prev=None, force=None):
+    """a database; relative to `prev` some instance ids keep their format, some change it, some disappear, new ones appear.
+    `force` = {iid: format} pins entries"""
+    fm = {}
+    if prev is None:
+        for iid in rng.sample(POOL, rng.randrange(4, 10)):
+            fm[iid] = rng.choice(ALL_FORMATS)
+    else:
+        old = db_formats(prev)
+        for iid, f in old.items():
+            r = rng.random()
+            if r < 0.3:
+                continue
+            fm[iid] = rng.choice([x for x in ALL_FORMATS if x != f]) if r < 0.7 else f
+        fresh = [i for i in POOL if i not in old]
+        for iid in rng.sample(fresh, min(len(fresh), rng.randrange(1, 4))):
+            fm[iid] = rng.choice(ALL_FORMATS)
+    for iid, f in (force or {}).items():
+        if f is None:
+            fm.pop(iid, None)
+        else:
+            fm[iid] = f
+    if not fm:
+        fm[rng.choice(POOL)] = rng.choice(ALL_FORMATS)
+    iids = sorted(fm)
+    rng.shuffle(iids)
+    types = rng.sample(CHAR_TYPES, len(iids))
+    nserv = rng.choice([1, 1, 2, 3])
+    stypes = rng.sample(SERVICE_TYPES, nserv)
+    db = [[1000 * (k + 1), stypes[k], []] for k in range(nserv)]
+    for iid, t in zip(iids, types):
+        db[rng.randrange(nserv)][2].append([iid, t, fm[iid]])
+    return [s for s in db if s[2]]
+
+
+def gen_raw(rng, fmt):
+    """the value bytes an accessory seals for a characteristic of this format"""
+    if fmt == "bool":
+        return bytes([rng.randrange(2)])
+    if fmt in ("uint8", "uint16", "uint32", "uint64"):
+        n = {"uint8": 1, "uint16": 2, "uint32": 4, "uint64": 8}[fmt]
+        v = rng.choice([0, 1, 2, 2 ** (8 * n) - 1, 2 ** (8 * n - 1), rng.randrange(2 ** (8 * n)), rng.randrange(2 ** (8 * n)), 300 % 2 ** (8 * n)])
+        return v.to_bytes(n, "little")
+    if fmt == "int":
+        return struct.pack("<i", rng.choice([0, 1, -1, -2, 2 ** 31 - 1, -2 ** 31, rng.randrange(-2 ** 31, 2 ** 31), rng.randrange(-1000, 1000)]))
+    if fmt == "float":
+        return struct.pack("<f", rng.choice([0.0, 1.0, -1.0, 0.5, 21.5, -40.25, 100.0, 1e10, 3.14159, rng.uniform(-1000, 1000)]))
+    if fmt == "string":
+        return rng.choice([b"abc", b"on", b"", b"12345678", b"caf\xc3\xa9", b"x", b"Lamp 2"])
+    return bytes(rng.randrange(256) for _ in range(rng.randrange(1, 9)))
+
+
+def value_matches(fmt, raw, got):
+    """does what listeners got say what the accessory sealed, read with the CURRENT format of the characteristic?
+    (independent reading of the 8 value bytes; lenient about representation where the property does not fix one)"""
+    b = bytes(raw).ljust(8, b"\0")
+    try:
+        if fmt == "bool":
+            return isinstance(got, (bool, int)) and got == (b[0] != 0)
+        if fmt in ("uint8", "uint16", "uint32", "uint64"):
+            n = {"uint8": 1, "uint16": 2, "uint32": 4, "uint64": 8}[fmt]
+            return isinstance(got, int) and got == int.from_bytes(b[:n], "little")
+        if fmt == "int":
+            return isinstance(got, int) and got == int.from_bytes(b[:4], "little", signed=True)
+        if fmt == "float":
+            return isinstance(got, (int, float)) and not isinstance(got, bool) and struct.pack("<f", got) == b[:4]
+        if fmt == "string":
+            return isinstance(got, str) and got.encode("utf-8").rstrip(b"\0") == b.rstrip(b"\0")
+        # data / anything else: bytes, or text carrying them in hex or base64
+        want = b.rstrip(b"\0")
+        if isinstance(got, (bytes, bytearray)):
+            return bytes(got).rstrip(b"\0") == want
+        if isinstance(got, str):
+            import base64
+            import binascii
+            for dec in (bytes.fromhex, lambda s: base64.b64decode(s, validate=True)):
+                try:
+                    if dec(got).rstrip(b"\0") == want:
+                        return True
+                except (ValueError, binascii.Error):
+                    pass
+        return False
+    except Exception:  # noqa: BLE001 - a value of the wrong kind altogether
+        return False
+
+
+def safe_canon(fmt, v):
+    try:
+        return canon_value(fmt, v)
+    except Exception:  # noqa: BLE001
+        return "?:" + repr(v)[:40]
+
+
+def _mock_adv(payload, advid, address):
+    a = MagicMock()
+    a.manufacturer_data = {76: bytes([0x11, 0x36]) + advid + payload}
+    a.rssi = -40
+    d = MagicMock()
+    d.name = "dev"
+    d.address = address
+    return d, a
+
+
+# ---------------------------------------------------------------- a HAP-BLE accessory behind a fake radio (scaffolding)
+# Only what the controller needs to re-read the GATT database after a configuration-number change: service / characteristic
+# discovery, instance-id descriptors, characteristic signature reads, a real pair-verify (harness.refacc, nothing from
+# aiohomekit) and encrypted value reads.  It is scaffolding to make the library replace its database by its OWN path; the
+# oracle never looks at it except to know that the controller has been served the complete new database.
+_PF_CODE = {"bool": 0x01, "uint8": 0x04, "uint16": 0x06, "uint32": 0x08, "uint64": 0x0A, "int": 0x10, "float": 0x14, "string": 0x19, "data": 0x1B}
+_DEFAULT_RAW = {"bool": b"\0", "uint8": b"\0", "uint16": bytes(2), "uint32": bytes(4), "uint64": bytes(8), "int": bytes(4), "float": bytes(4), "string": b"v", "data": b"\0"}
+_SVC_IID_UUID = "e604e95d-a759-4817-87d3-aa005083a0d1"
+_IID_DESC_UUID = "dc46f0fe-81d2-4616-b5d9-6abdd796939a"
+_PAIR_VERIFY = "0000004E-0000-1000-8000-0026BB765291"
+
+
+def _uuid_le(u):
+    import uuid
+    return uuid.UUID(u).bytes[::-1]
+
+
+class _GDesc:
+    def __init__(self, handle):
+        self.handle = handle
+
+
+class _GChar:
+    def __init__(self, uuid, handle, iid, fmt, service):
+        self.uuid = uuid.lower()
+        self.handle = handle
+        self.iid = iid
+        self.fmt = fmt
+        self.service = service
+        self.properties = ["read", "write"]
+        self.max_write_without_response_size = 0
+        self._desc = _GDesc(handle + 1) if iid is not None else None
+        self.descriptors = [self._desc] if self._desc else []
+
+    def get_descriptor(self, uuid):
+        return self._desc if str(uuid).lower() == _IID_DESC_UUID else None
+
+
+class _GService:
+    def __init__(self, uuid, iid, handle):
+        self.uuid = uuid.lower()
+        self.iid = iid
+        self.handle = handle
+        self.characteristics = []
+
+    def get_characteristic(self, uuid):
+        for c in self.characteristics:
+            if c.uuid == str(uuid).lower():
+                return c
+        return None
+
+
+class _GServices:
+    def __init__(self, services):
+        self.services = {s.handle: s for s in services}
+
+    def __iter__(self):
+        return iter(self.services.values())
+
+
+def _gatt_table(db):
+    """GATT services of an accessory whose HAP database is `db`, plus the pairing service every accessory has"""
+    out, h = [], 16
+    for siid, stype, chars in list(db) + FIXED_SERVICES:
+        s = _GService(stype, int(siid), h)
+        h += 1
+        s.characteristics.append(_GChar(_SVC_IID_UUID, h, None, None, s))
+        h += 2
+        for iid, ctype, fmt in chars:
+            s.characteristics.append(_GChar(ctype, h, int(iid), fmt, s))
+            h += 2
+        out.append(s)
+    return _GServices(out)
+
+
+class _GattClient:
+    """what the radio gives the controller for one connection"""
+
+    def __init__(self, acc, disconnected_callback):
+        self.acc = acc
+        self.address = acc.address
+        self.is_connected = True
+        self.services = _gatt_table(acc.db)
+        self._cb = disconnected_callback
+        self.c2a = self.a2c = None
+        self.nc2a = self.na2c = 0
+        self.va = None
+        self.pending = {}
+
+    def drop(self, notify=True):
+        if self.is_connected:
+            self.is_connected = False
+            if notify and self._cb:
+                self._cb(self)
+
+    async def disconnect(self):
+        self.drop()
+        return True
+
+    async def clear_cache(self):
+        return True
+
+    async def start_notify(self, *a, **k):
+        return None
+
+    async def stop_notify(self, *a, **k):
+        return None
+
+    def _all(self):
+        return [c for s in self.services for c in s.characteristics]
+
+    async def get_characteristic(self, service_uuid, characteristic_uuid, iid=None):
+        from bleak.exc import BleakError
+        m = [c for c in self._all() if c.service.uuid == service_uuid.lower() and c.uuid == characteristic_uuid.lower()]
+        if len(m) > 1 and iid:
+            m = [c for c in m if c.iid == iid]
+        if not m:
+            raise BleakError(f"no characteristic {service_uuid}/{characteristic_uuid}/{iid}")
+        return m[0]
+
+    async def get_characteristic_iid(self, char):
+        return char.iid
+
+    def determine_fragment_size(self, overhead, handle):
+        return 512 - overhead
+
+    async def read_gatt_descriptor(self, handle):
+        for c in self._all():
+            if c._desc and c._desc.handle == handle:
+                return bytearray(c.iid.to_bytes(2, "little"))
+        raise KeyError(handle)
+
+    def _check(self):
+        from bleak.exc import BleakError
+        if not self.is_connected:
+            raise BleakError("not connected")
+
+    async def write_gatt_char(self, char, data, response=False):
+        self._check()
+        data = bytes(data)
+        encrypted = False
+        if self.c2a is not None and char.uuid != _PAIR_VERIFY.lower():
+            try:
+                data = ChaCha20Poly1305(self.c2a).decrypt(struct.pack("<LQ", 0, self.nc2a), data, b"")
+                self.nc2a += 1
+                encrypted = True
+            except Exception:  # noqa: BLE001 - a plaintext procedure (signature read) inside a secure session
+                pass
+        opcode, tid, iid = data[1], data[2], int.from_bytes(data[3:5], "little")
+        body = data[7:7 + int.from_bytes(data[5:7], "little")] if len(data) >= 7 else b""
+        status, out = 0, b""
+        target = next((c for c in self._all() if c.iid == iid), None)
+        if opcode == 0x01 and target is not None:        # characteristic signature read
+            out = refacc.tlv([(0x04, _uuid_le(target.uuid)), (0x07, target.service.iid.to_bytes(2, "little")), (0x06, _uuid_le(target.service.uuid)),
+                              (0x0A, (0x0001 | 0x0010 | 0x0080 | 0x0100 | 0x0200).to_bytes(2, "little")),
+                              (0x0C, struct.pack("<BbHBH", _PF_CODE[target.fmt], 0, 0x2700, 1, 0))])
+            self.acc.sig_served.add(iid)
+        elif opcode == 0x03 and target is not None and encrypted:      # characteristic read (secure session only)
+            out = refacc.tlv([(0x01, _DEFAULT_RAW[target.fmt])])
+            self.acc.val_served.add(iid)
+        elif opcode == 0x08 and encrypted:      # protocol configuration: generate a broadcast key and / or report the parameters
+            asked = refacc.untlv(body)
+            if 0x01 in asked:
+                # HAP-BLE 7.4.7.3: the key is bound to the current session's shared secret and the controller's long-term public key
+                self.acc.bkey = refacc.hk(self.va.shared, self.acc.ident.ios_ltpk, b"Broadcast-Encryption-Key")
+                self.acc.keys_generated += 1
+            if 0x02 in asked:
+                out = refacc.tlv([(0x01, (self.acc.gsn & 0xFFFF).to_bytes(2, "little")), (0x02, bytes([self.acc.cfg & 0xFF])), (0x03, PAIRS[self.acc.who]["adv"])]
+                                 + ([(0x04, self.acc.bkey)] if self.acc.bkey else []))
+        elif opcode == 0x07 and target is not None and encrypted:      # characteristic configuration (broadcast on, interval)
+            out = refacc.tlv([(0x01, b"\x01\x00"), (0x02, b"\x01")])
+        elif opcode == 0x02 and char.uuid == _PAIR_VERIFY.lower():      # pair-verify
+            req = refacc.untlv(refacc.untlv(body)[0x01])
+            if req.get(6) == b"\x01":
+                self.va = refacc.VerifyAccessory(self.acc.ident, self.acc.rb(32))
+                out = refacc.tlv(self.va.m2(req[3]))     # a resume request is answered like a plain M1
+            elif req.get(6) == b"\x03" and self.va is not None and self.va.check_m3(list(req.items())):
+                out = refacc.tlv([(6, b"\x04")])
+                self.c2a = refacc.hk(self.va.shared, b"Control-Salt", b"Control-Write-Encryption-Key")
+                self.a2c = refacc.hk(self.va.shared, b"Control-Salt", b"Control-Read-Encryption-Key")
+                self.nc2a = self.na2c = 0
+                self.acc.verified += 1
+            else:
+                out = refacc.tlv([(6, b"\x04"), (7, b"\x02")])
+            out = refacc.tlv([(0x01, out)])
+        else:
+            status = 6
+        pdu = bytes([0x02, tid, status]) + (len(out).to_bytes(2, "little") + out if out else b"")
+        self.pending[char.handle] = (pdu, encrypted)
+
+    async def read_gatt_char(self, char):
+        self._check()
+        if isinstance(char, int):       # the service instance id characteristic, addressed by handle
+            c = next(c for c in self._all() if c.handle == char)
+            return bytearray(c.service.iid.to_bytes(2, "little"))
+        if char.uuid == _SVC_IID_UUID:
+            return bytearray(char.service.iid.to_bytes(2, "little"))
+        pdu, encrypted = self.pending.pop(char.handle)
+        if encrypted:
+            pdu = ChaCha20Poly1305(self.a2c).encrypt(struct.pack("<LQ", 0, self.na2c), pdu, b"")
+            self.na2c += 1
+        return bytearray(pdu)
+
+
+class _GattAccessory:
+    def __init__(self, who, db):
+        import random as _r
+        r = _r.Random("c18-gatt-" + who)
+        self.rb = lambda n: bytes(r.randrange(256) for _ in range(n))
+        self.who = who
+        self.address = PAIRS[who]["pid"]
+        self.ident = refacc.Identity(self.rb, acc_id=PAIRS[who]["pid"].encode(), ios_id="ctrl-" + who)
+        self.db = db
+        self.client = None
+        self.sig_served, self.val_served, self.verified = set(), set(), 0
+        self.bkey = None            # the broadcast key the accessory seals with (None: whatever it was given at pairing time)
+        self.keys_generated = 0
+        self.gsn, self.cfg = 0, 1   # what it reports as global state number / configuration number
+
+    def firmware_update(self, db):
+        """new firmware, new GATT database; the accessory reboots, so a connection it had is gone"""
+        if self.client is not None:
+            self.client.drop()
+            self.client = None
+        self.db = db
+        self.sig_served, self.val_served, self.verified = set(), set(), 0
+
+    def connect(self, disconnected_callback):
+        self.client = _GattClient(self, disconnected_callback)
+        return self.client
+
+    def served_everything(self):
+        # every characteristic signature of the new database was read and the secure session was set up (value reads are
+        # skipped by the controller for some characteristic types)
+        return set(db_formats(self.db)) <= self.sig_served and self.verified >= 1
+
+
+_RADIO = {"wasted": 0.0}    # real seconds lost in this run waiting for controller tasks that never finished
+
+
+class _World:
+    """the controller, its pairings and the harness's own bookkeeping about them"""
+
+    def __init__(self, case):
+        from aiohomekit.characteristic_cache import CharacteristicCacheMemory
+        self.case = case
+        self.dbs = case["dbs"]
+        self.cache = CharacteristicCacheMemory()
+        self.book = {}
+        self.all_listeners = []
+        self.acc = {}
+        self.loop = None
+        for who, start in case["start"].items():
+            P = PAIRS[who]
+            with_key = case.get("key", {}).get(who, True)
+            # key: does the controller hold the accessory's current broadcast key; acckey: the key the accessory seals with
+            self.book[who] = {"cur": start, "start": start, "db": db_formats(self.dbs[case["db0"][who]]), "dbidx": case["db0"][who], "cfg": 1, "key": with_key,
+                              "acckey": P["key"], "oldkeys": [], "listeners": [], "fall": [], "toks": [], "out": [], "segs": []}
+            self.cache.async_create_or_update_map(P["pid"], 1, db_accessories(self.dbs[case["db0"][who]]), P["key"].hex() if with_key else None, start)
+            self.acc[who] = _GattAccessory(who, self.dbs[case["db0"][who]])
+        self.boot()
+        for who in self.book:
+            self.listen(who, "ok")
+
+    def boot(self):
+        """a controller process starts: pairings are loaded from the characteristic cache"""
+        from aiohomekit.controller.ble.controller import BleController
+        from aiohomekit.controller.ble.manufacturer_data import HomeKitAdvertisement
+        self.c = BleController(self.cache)
+        self.p = {}
+        for who, bk in self.book.items():
+            P = PAIRS[who]
+            if self.acc[who].client is not None:
+                self.acc[who].client.drop(notify=False)     # the old process and its connections are gone
+                self.acc[who].client = None
+            p = self.c.load_pairing("alias" + who, dict(self.acc[who].ident.pairing_data(connection="BLE"), AccessoryAddress=P["pid"]))
+            p._process_disconnected_events = (lambda fall: lambda: fall.append("f"))(bk["fall"])
+            # the description (advertised state number) is what _async_notification starts from
+            p.description = HomeKitAdvertisement.from_cache(P["pid"], P["pid"].lower(), bk["cfg"], bk["cur"])
+            self.p[who] = p
+            for L in bk["listeners"]:
+                L["active"] = False     # listeners of the previous process are gone (they stay in all_listeners: they must hear nothing more)
+            bk["listeners"] = []
+
+    def listen(self, who, kind):
+        L = {"log": [], "active": True, "kind": kind}
+
+        def cb(ev, L=L):
+            L["log"].append(ev)
+            if L["kind"] == "raise":
+                raise RuntimeError("listener failed")
+        L["remove"] = self.p[who].dispatcher_connect(cb)
+        self.book[who]["listeners"].append(L)
+        self.all_listeners.append((who, L))
+
+    def replace(self, who, dbidx, how, cfg):
+        bk = self.book[who]
+        P = PAIRS[who]
+        if how == "gatt":
+            return self.replace_over_gatt(who, dbidx, cfg)
+        if how == "restart":
+            self.boot()
+            for w in self.book:
+                self.listen(w, "ok")
+        # the application hands the pairing the database it has on record for the new configuration number
+        self.p[who].restore_accessories_state(db_accessories(self.dbs[dbidx]), cfg, bk["acckey"] if bk["key"] else None, bk["cur"])
+        bk["db"], bk["dbidx"], bk["cfg"] = db_formats(self.dbs[dbidx]), dbidx, cfg
+        self.acc[who].db = self.dbs[dbidx]
+        return True
+
+    def replace_over_gatt(self, who, dbidx, cfg):
+        """the accessory gets new firmware (new GATT database, higher configuration number) and says so in its regular
+        advertisement; the controller notices, connects and re-reads the database - all of it library code, the radio is fake.
+        Returns False when the controller did not fetch the complete database (no verdict about later notifications then)."""
+        bk, acc = self.book[who], self.acc[who]
+        acc.firmware_update(self.dbs[dbidx])
+
+        acc.gsn, acc.cfg = bk["cur"], cfg
+
+        async def go():
+            self.c._device_detected(*self.regular_adv(who, cfg))
+            return await self.settle()
+        n0 = acc.keys_generated
+        settled = self.on_radio(go)
+        self.sync_key(who, n0)
+        if not (settled and acc.served_everything()):
+            return False
+        bk["db"], bk["dbidx"], bk["cfg"] = db_formats(self.dbs[dbidx]), dbidx, cfg
+        return True
+
+    def regular_adv(self, who, cfg):
+        """the accessory's regular (unencrypted) advertisement: it carries the configuration number and the last state number"""
+        P, bk = PAIRS[who], self.book[who]
+        a = MagicMock()
+        # type 0x06 | length | status flags | device id | category | state number | configuration number | compatible version | setup hash
+        a.manufacturer_data = {76: bytes([0x06, 0x31, 0x00]) + P["adv"] + struct.pack("<HHBB", 5, bk["cur"] & 0xFFFF, cfg & 0xFF, 2) + bytes(4)}
+        a.rssi = -40
+        d = MagicMock()
+        d.name = "dev"
+        d.address = P["pid"]
+        return d, a
+
+    async def settle(self):
+        """let the controller's background tasks finish (nothing on the fake radio takes real time); a task that hangs is cancelled, and
+        the real time lost that way is limited per run (see on_radio)"""
+        import asyncio
+        import time
+        t0 = time.time()
+        for _ in range(3):
+            tasks = [t for t in asyncio.all_tasks() if t is not asyncio.current_task()]
+            if not tasks:
+                break
+            await asyncio.wait(tasks, timeout=1)
+        left = [t for t in asyncio.all_tasks() if t is not asyncio.current_task()]
+        for t in left:
+            t.cancel()
+        if left:
+            _RADIO["wasted"] += time.time() - t0
+            await asyncio.sleep(0)
+        return not left
+
+    def on_radio(self, go):
+        import asyncio
+        from unittest import mock
+        world = self
+
+        async def fake_establish_connection(device, name, disconnected_callback, *a, **k):
+            w = next(w for w, Q in PAIRS.items() if Q["pid"] == device.address)
+            return world.acc[w].connect(disconnected_callback)
+        if _RADIO["wasted"] > 10:
+            raise RuntimeError("connections over the fake radio keep hanging: not attempted any more in this run")
+        if self.loop is None:
+            self.loop = asyncio.new_event_loop()
+        with mock.patch("aiohomekit.controller.ble.pairing.establish_connection", fake_establish_connection):
+            return self.loop.run_until_complete(go())
+
+    def resubscribe(self, who, iids):
+        """the application subscribes to characteristics and (re)populates the accessory state: the controller connects, sets up a
+        session and - having subscriptions to restore - asks the accessory to generate a NEW broadcast key, which replaces the old one
+        on both sides.  Returns True when the accessory did generate a key."""
+        bk, acc, p = self.book[who], self.acc[who], self.p[who]
+        if acc.client is not None:
+            acc.client.drop()           # connections do not live long on battery powered accessories
+            acc.client = None
+        acc.gsn, acc.cfg = bk["cur"], bk["cfg"]
+        n0 = acc.keys_generated
+
+        async def go():
+            self.c._device_detected(*self.regular_adv(who, bk["cfg"]))
+            await p.subscribe({(1, int(i)) for i in iids})
+            await p.async_populate_accessories_state(force_update=True)
+            return await self.settle()
+        try:
+            self.on_radio(go)
+        finally:
+            rekeyed = self.sync_key(who, n0)
+        return rekeyed
+
+    def sync_key(self, who, n0):
+        """bookkeeping: did the accessory generate a new broadcast key (at the controller's request, inside a verified session)?"""
+        bk, acc = self.book[who], self.acc[who]
+        if acc.keys_generated == n0:
+            return False
+        bk["oldkeys"].append(bk["acckey"])
+        bk["acckey"] = acc.bkey
+        if not bk["key"]:
+            self.close_segment(who)     # from here on the controller holds the broadcast key
+            bk["key"] = True
+        return True
+
+    def close_segment(self, who):
+        bk = self.book[who]
+        if bk["toks"] and len(bk["toks"]) == len(bk["out"]):
+            bk["segs"].append((f"bc.run 1 {bk['start']} {1 if bk['key'] else 0} " + " ".join(bk["toks"]), " ".join(bk["out"]) + f" | {self.p[who].description.state_num}"))
+        bk["toks"], bk["out"], bk["start"] = [], [], bk["cur"]
+
+    def close(self):
+        if self.loop is not None:
+            self.loop.close()
+            self.loop = None
+
+
+def run_db_history(case):
+    """one history over two pairings with database replacements.  Returns (violations [(signature, what, event index)], projections
+    {who: (model line, implementation output)}, value checks [(fmt, rawhex, canon delivered)], stats)."""
+    from collections import Counter
+    W = _World(case)
+    viol, vals, stats = [], [], Counter()
+
+    at = [0]
+
+    def bad(sig, what):
+        viol.append((sig, what, at[0]))
+
+    for idx, ev in enumerate(case["events"]):
+        at[0] = idx
+        kind = ev[0]
+        tag = f"event #{idx} {ev}"
+        if kind == "R":
+            _, who, dbidx, how, cfg = ev
+            try:
+                done = W.replace(who, dbidx, how, cfg)
+            except Exception as e:  # noqa: BLE001
+                if how == "gatt":
+                    done = False
+                    stats["replace/gatt-error/" + type(e).__name__] += 1
+                else:
+                    bad("notify/replace-" + type(e).__name__, f"{tag}: replacing the accessory database raised {type(e).__name__}: {e}")
+                    break
+            if not done:
+                # the controller did not re-read the whole database over the (fake) radio: which database is current is not
+                # for this check to say - the history ends here without a verdict
+                stats["replace/gatt-incomplete"] += 1
+                break
+            stats["replace/" + how] += 1
+            continue
+        if kind == "Y":
+            try:
+                stats["rekey/" + ("new-key" if W.resubscribe(ev[1], ev[2]) else "no-new-key")] += 1
+            except Exception as e:  # noqa: BLE001 - connection-level trouble is not this property's business
+                stats["rekey/error/" + type(e).__name__] += 1
+            continue
+        if kind == "L+":
+            W.listen(ev[1], ev[2])
+            continue
+        if kind == "L-":
+            act = [L for L in W.book[ev[1]]["listeners"] if L["active"]]
+            if len(act) > 1:
+                L = act[ev[2] % len(act)]
+                L["remove"]()
+                L["active"] = False
+            continue
+        # ---- an advertisement
+        who = ev[1] if kind != "O" else None
+        before = {w: W.p[w].description.state_num for w in W.p}
+        marks = [(w, L, len(L["log"])) for w, L in W.all_listeners]
+        for bk in W.book.values():
+            del bk["fall"][:]
+        tok = None
+        expect = None       # ('deliver', iid, raw, g) | ('silent', g) | None (nothing may happen)
+        if kind == "G":
+            _, _, g, inner, iid, rawhex = ev
+            raw = b"" if rawhex == "-" else bytes.fromhex(rawhex)
+            P, bk = PAIRS[who], W.book[who]
+            payload = seal(g, iid, raw, inner=inner, k=bk["acckey"], aid=P["adv"])
+            known = iid in bk["db"]
+            tok = f"G:1:{g}:{(inner if inner is not None else g) & 0xFFFF}:{iid if known else 900 + iid % 100}:{hx(raw.ljust(8, bytes(1)))}"
+            fresh = bk["key"] and bk["cur"] < g < bk["cur"] + 100 and ((inner if inner is not None else g) & 0xFFFF) == g
+            if fresh:
+                expect = ("deliver", iid, raw, g) if known else ("silent", g)
+            d, a = _mock_adv(payload, P["adv"], P["pid"])
+        elif kind == "K":       # sealed under a key that is not this pairing's: all-zero, the OTHER accessory's key, or the key this accessory used BEFORE it generated a new one
+            _, _, g, iid, which = ev
+            P = PAIRS[who]
+            k = bytes(32)
+            if which == "other":
+                k = W.book["B" if who == "A" else "A"]["acckey"]
+            elif which == "old" and W.book[who]["oldkeys"]:
+                k = W.book[who]["oldkeys"][-1]
+            d, a = _mock_adv(seal(g, iid, b"\x01", k=k, aid=P["adv"]), P["adv"], P["pid"])
+            tok = "F:1"
+        elif kind == "X":       # a genuine sealing of the OTHER accessory (its key, its advertising id as associated data) sent under this one's advertising id
+            _, _, g, iid = ev
+            P, Q = PAIRS[who], PAIRS["B" if who == "A" else "A"]
+            d, a = _mock_adv(seal(g, iid, b"\x01", k=W.book["B" if who == "A" else "A"]["acckey"], aid=Q["adv"]), P["adv"], P["pid"])
+            tok = "F:1"
+        elif kind == "B":
+            _, _, g, iid, bit = ev
+            P = PAIRS[who]
+            x = bytearray(seal(g, iid, b"\x07", k=W.book[who]["acckey"], aid=P["adv"]))
+            x[bit // 8 % len(x)] ^= 1 << (bit % 8)
+            d, a = _mock_adv(bytes(x), P["adv"], P["pid"])
+            tok = "F:1"
+        elif kind == "S":
+            P = PAIRS[who]
+            payload = b"" if ev[2] == "-" else bytes.fromhex(ev[2])
+            d, a = _mock_adv(payload, P["adv"], P["pid"])
+            tok = "S:1" if len(payload) < 6 else "F:1"
+        else:                   # 'O': a genuine-looking advertisement of an accessory nobody is paired with
+            _, g, iid = ev
+            d, a = _mock_adv(seal(g, iid, b"\x01", aid=OTHER), OTHER, PAIRS["A"]["pid"])
+        try:
+            W.c._device_detected(d, a)
+        except Exception as e:  # noqa: BLE001
+            bad("notify/" + type(e).__name__, f"{tag}: _device_detected raised {type(e).__name__}: {e}")
+            break
+        stats["adv/" + kind] += 1
+        after = {w: W.p[w].description.state_num for w in W.p}
+        calls = [(w, L, L["log"][n0:]) for w, L, n0 in marks if len(L["log"]) > n0]
+        # -- nobody but the addressed pairing's current listeners may hear anything, no other state may move
+        for w, L, new in calls:
+            if w != who or not L["active"]:
+                bad("notify/accepted", f"{tag}: reached a listener of pairing {w} (active={L['active']}) although it was addressed to {who}: {new}")
+        for w in W.p:
+            if w != who and after[w] != before[w]:
+                bad("notify/state-changed", f"{tag}: state number of pairing {w} moved {before[w]}->{after[w]} on an advertisement not addressed to it")
+        if who is None:
+            continue
+        bk = W.book[who]
+        mine = [(L, new) for w, L, new in calls if w == who and L["active"]]
+        delivered = bool(mine)
+        if delivered:
+            ev0 = mine[0][1][0]
+            got_key = next(iter(ev0)) if isinstance(ev0, dict) and ev0 else None
+            if expect is None or expect[0] != "deliver":
+                why = "for an instance id the CURRENT database does not contain" if expect else "though not authentic and fresh"
+                bad("notify/accepted" if expect is None else "notify/unknown-iid-delivered", f"{tag}: delivered {ev0} {why} (state {before[who]}->{after[who]}, database #{bk['dbidx']})")
+            else:
+                _, iid, raw, g = expect
+                fmt = bk["db"][iid]
+                stats["delivered/" + fmt] += 1
+                if after[who] != g:
+                    bad("notify/accepted", f"{tag}: delivered but the state number is {after[who]}, not {g}")
+                act = [L for L in bk["listeners"] if L["active"]]
+                for L in act:
+                    new = next((n for L2, n in mine if L2 is L), [])
+                    if len(new) != 1:
+                        bad("notify/listener-missed", f"{tag}: a connected listener ({L['kind']}) was called {len(new)} times for one accepted notification")
+                for L, new in mine:
+                    for e in new:
+                        if not (isinstance(e, dict) and list(e) == [(1, iid)] and isinstance(e[(1, iid)], dict) and "value" in e[(1, iid)]):
+                            bad("notify/accepted", f"{tag}: delivered under {list(e) if isinstance(e, dict) else e!r}, expected [(1, {iid})]")
+                        elif not value_matches(fmt, raw, e[(1, iid)]["value"]):
+                            bad("notify/wrong-value", f"{tag}: instance id {iid} is {fmt} in the current database (#{bk['dbidx']}); accessory sealed {hx(raw)}, listeners got {e[(1, iid)]['value']!r}")
+                if isinstance(ev0, dict) and (1, iid) in ev0 and isinstance(ev0[(1, iid)], dict) and "value" in ev0[(1, iid)]:
+                    vals.append((fmt, hx(raw), safe_canon(fmt, ev0[(1, iid)]["value"])))
+            bk["out"].append(f"d:{got_key[1] if isinstance(got_key, tuple) and len(got_key) == 2 else '?'}:{tok.split(':')[5] if kind == 'G' else '?'}")
+        else:
+            if expect is not None and after[who] == expect[-1]:
+                if expect[0] == "deliver":
+                    bad("notify/accepted-not-delivered", f"{tag}: authentic and fresh, the state number advanced {before[who]}->{after[who]}, instance id {expect[1]} is {bk['db'][expect[1]]} in the current database "
+                        f"(#{bk['dbidx']}) - but no listener was called")
+                stats["silent-unknown-iid"] += expect[0] == "silent"
+                bk["out"].append("q")
+            elif expect is not None and expect[0] == "silent":
+                bad("notify/unknown-iid-not-accepted", f"{tag}: authentic fresh advertisement for an instance id the current database does not contain left the state number at {after[who]} - older notifications stay acceptable")
+                bk["out"].append("i")
+            else:
+                if after[who] != before[who]:
+                    bad("notify/state-changed", f"{tag}: rejected advertisement changed the state number {before[who]}->{after[who]}")
+                if kind == "S" and tok == "S:1" and bk["key"]:
+                    bk["out"].append("x")
+                elif bk["fall"] == ["f"]:
+                    bk["out"].append("f")
+                else:
+                    bk["out"].append("i")
+        bk["toks"].append(tok)
+        if expect is not None and after[who] == expect[-1]:
+            bk["cur"] = expect[-1]
+            stats["accepted"] += 1
+        elif after[who] != bk["cur"]:
+            # the library and the bookkeeping disagree about the last accepted number (already reported): stop here
+            if not viol:
+                bad("notify/state-changed", f"{tag}: state number is {after[who]}, the last accepted notification had {bk['cur']}")
+            break
+    proj = []
+    for who, bk in W.book.items():
+        W.close_segment(who)
+        proj += [(who, line, out) for line, out in bk["segs"]]
+    W.close()
+    return viol, proj, vals, stats
+
+
+def gen_db_history(rng, long=False):
+    """a random history over two pairings: genuine / replayed / stale / far / forged / cross-accessory advertisements interleaved with database
+    replacements (restore on the live pairing, a restart of the controller followed by a restore, the controller's own GATT re-read after a
+    configuration-number bump), regenerations of the broadcast key and listener changes"""
+    dbs = [gen_db(rng), gen_db(rng)]
+    case = {"stream": "dbhist", "start": {"A": rng.choice([0, 1, 7, 100, 65000, 65400]), "B": rng.choice([3, 100, 40000])}, "db0": {"A": 0, "B": 1},
+            "key": {"A": True, "B": rng.random() > 0.1}, "dbs": dbs, "events": []}
+    cur = dict(case["start"])
+    dbi = dict(case["db0"])
+    cfg = {"A": 1, "B": 1}
+    seen = {"A": set(db_formats(dbs[0])), "B": set(db_formats(dbs[1]))}     # instance ids some database of the pairing has had
+    accepted = {"A": [], "B": []}
+    keyed = dict(case["key"])
+    evs = case["events"]
+    for _ in range(rng.randrange(6, 40 if long else 18)):
+        who = "A" if rng.random() < 0.7 else "B"
+        fm = db_formats(dbs[dbi[who]])
+        r = rng.random()
+        gone = sorted(seen[who] - set(fm))
+        # which instance id: one of the current database, one a previous database had, one no database ever had
+        q = rng.random()
+        if q < 0.65 or not gone:
+            iid = rng.choice(sorted(fm))
+        elif q < 0.9:
+            iid = rng.choice(gone)
+        else:
+            iid = rng.choice([999, 950, 5])
+        raw = gen_raw(rng, fm[iid]) if iid in fm else bytes(rng.randrange(256) for _ in range(rng.randrange(1, 9)))
+        if r < 0.2:
+            dbs.append(gen_db(rng, dbs[dbi[who]]))
+            how = rng.choice(["restore"] * 6 + ["gatt"] * 3 + ["restart"])
+            cfg[who] = min(cfg[who] + (rng.choice([1, 1, 1, 2, 0]) if how != "gatt" else rng.choice([1, 1, 2])), 250)
+            evs.append(["R", who, len(dbs) - 1, how, cfg[who]])
+            dbi[who] = len(dbs) - 1
+            seen[who] |= set(db_formats(dbs[-1]))
+        elif r < 0.55:
+            g = cur[who] + rng.choice([1, 1, 1, 1, 2, 5, 50, 99])
+            evs.append(["G", who, g, None, iid, hx(raw)])
+            if g <= 65535 and keyed[who]:
+                accepted[who].append(evs[-1])
+                cur[who] = g
+        elif r < 0.65 and accepted[who]:
+            evs.append(list(rng.choice(accepted[who])))       # replay
+        elif r < 0.70:
+            evs.append(["G", who, max(cur[who] - rng.randrange(0, 4), 0), None, iid, hx(raw)])   # current / older
+        elif r < 0.74:
+            evs.append(["G", who, cur[who] + rng.choice([100, 101, 150, 1000]), None, iid, hx(raw)])
+        elif r < 0.77:
+            evs.append(["G", who, cur[who] + 1, cur[who] + rng.choice([0, 2, 3]), iid, hx(raw)])   # inner counter != nonce counter
+        elif r < 0.81:
+            evs.append(["K", who, cur[who] + 1, iid, rng.choice(["zero", "other", "old", "old"])])
+        elif r < 0.85:
+            evs.append(["X", who, cur["B" if who == "A" else "A"] + 1, iid])
+        elif r < 0.89:
+            evs.append(["B", who, cur[who] + 1, iid, rng.randrange(16 * 8)])
+        elif r < 0.91:
+            evs.append(["S", who, hx(bytes(rng.randrange(256) for _ in range(rng.randrange(0, 12))))])
+        elif r < 0.93:
+            evs.append(["O", cur[who] + 1, iid])
+        elif r < 0.96:
+            evs.append(["L+", who, rng.choice(["ok", "ok", "raise"])])
+        elif r < 0.98:
+            evs.append(["L-", who, rng.randrange(4)])
+        else:
+            # the application (re)subscribes and re-populates: the accessory generates a new broadcast key; a pairing that had none has one now
+            evs.append(["Y", who, rng.sample(sorted(fm), min(len(fm), rng.randrange(1, 3)))])
+            keyed[who] = True
+    return case
+
+
+def directed_db_histories(rng):
+    """every ordered pair of distinct formats as the before/after format of ONE instance id, with an instance id that disappears and one that
+    appears; the replacement comes after a first notification (n1), before any (n0), or twice in a row (back to the first format)"""
+    out = []
+    k = 0
+    for f1 in ALL_FORMATS:
+        for f2 in ALL_FORMATS:
+            if f1 == f2:
+                continue
+            k += 1
+            who = "A" if k % 4 else "B"
+            other = "B" if who == "A" else "A"
+            x, gone, new = rng.sample(POOL, 3)
+            fg, fn = rng.choice(ALL_FORMATS), rng.choice(ALL_FORMATS)
+            db1 = gen_db(rng, None, {x: f1, gone: fg, new: None})
+            db2 = gen_db(rng, db1, {x: f2, gone: None, new: fn})
+            db3 = gen_db(rng, db2, {x: f1, gone: fg, new: None})
+            dbo = gen_db(rng, None, {x: rng.choice(ALL_FORMATS)})
+            s = rng.choice([1, 100, 65000])
+            variant = ("n1", "n0", "twice")[k % 3]
+            how = ("restore", "gatt", "restore", "restart")[(k // 3) % 4]
+            evs = []
+            g = s
+            if variant != "n0":
+                g += 1
+                evs.append(["G", who, g, None, x, hx(gen_raw(rng, f1))])
+            first = list(evs[-1]) if evs else None
+            evs.append(["R", who, 1, how, 2])
+            g += 1
+            evs.append(["G", who, g, None, x, hx(gen_raw(rng, f2))])
+            if first:
+                evs.append(first)                                      # replay from before the replacement
+            g += 2
+            evs.append(["G", who, g, None, gone, hx(gen_raw(rng, fg))])    # an instance id the new database no longer has
+            g += 1
+            evs.append(["G", who, g, None, new, hx(gen_raw(rng, fn))])     # an instance id only the new database has
+            evs.append(["G", other, 51, None, x, hx(gen_raw(rng, db_formats(dbo)[x]))])   # same instance id on the other accessory
+            if variant == "twice":
+                evs.append(["R", who, 2, "gatt" if how == "restore" else "restore", 3])
+                g += 1
+                evs.append(["G", who, g, None, x, hx(gen_raw(rng, f1))])
+                g += 1
+                evs.append(["G", who, g, None, new, hx(gen_raw(rng, fn))])
+                g += 1
+                evs.append(["G", who, g, None, gone, hx(gen_raw(rng, fg))])
+            out.append({"stream": "dbhist", "start": {who: s, other: 50}, "db0": {who: 0, other: 3}, "key": {"A": True, "B": True}, "dbs": [db1, db2, db3, dbo], "events": evs,
+                        "label": f"{f1}->{f2}/{variant}/{how}"})
+    return out
+
+
+def directed_rekey_histories(rng):
+    """the accessory generates a new broadcast key (the controller re-subscribes over a fresh connection): notifications sealed with the key it
+    used before - replays and fresh numbers alike - authenticate no longer, the new key's do; also across database replacements and a restart"""
+    out = []
+    for who in ("A", "B"):
+        other = "B" if who == "A" else "A"
+        for with_key in (True, False):
+            for how in ("restore", "gatt", "restart"):
+                db1, dbo = gen_db(rng), gen_db(rng)
+                db2 = gen_db(rng, db1)
+                f1, f2, fo = db_formats(db1), db_formats(db2), db_formats(dbo)
+                s = rng.choice([1, 100, 65000])
+                x, y = rng.choice(sorted(f1)), rng.choice(sorted(f2))
+                g = s + 1
+                evs = [["G", who, g, None, x, hx(gen_raw(rng, f1[x]))], ["Y", who, [x]]]
+                g += 1
+                evs.append(["G", who, g, None, x, hx(gen_raw(rng, f1[x]))])
+                evs.append(["K", who, g + 1, x, "old"])
+                evs.append(list(evs[0]))
+                evs.append(["R", who, 1, how, 2])
+                g += 1
+                evs.append(["G", who, g, None, y, hx(gen_raw(rng, f2[y]))])
+                evs.append(["K", who, g + 1, y, "old"])
+                evs.append(["Y", who, [y]])
+                evs.append(["K", who, g + 1, y, "old"])
+                g += 3
+                evs.append(["G", who, g, None, y, hx(gen_raw(rng, f2[y]))])
+                evs.append(["R", who, 0, "restart", 3])
+                evs.append(["K", who, g + 1, x, "old"])
+                g += 1
+                evs.append(["G", who, g, None, x, hx(gen_raw(rng, f1[x]))])
+                z = rng.choice(sorted(fo))
+                evs.append(["G", other, 51, None, z, hx(gen_raw(rng, fo[z]))])
+                out.append({"stream": "dbhist", "start": {who: s, other: 50}, "db0": {who: 0, other: 2}, "key": {who: with_key, other: True}, "dbs": [db1, db2, dbo], "events": evs,
+                            "label": f"rekey/{who}/{with_key}/{how}"})
+    return out
+
+
+def db_stream(ctx, driver):
+    rng = ctx.rng
+    _RADIO["wasted"] = 0.0
+    cases = directed_db_histories(rng) + directed_rekey_histories(rng) + [gen_db_history(rng, ctx.thorough()) for _ in range(ctx.budget(60, 1200))]
+    mcases, mouts, mlines = [], [], []
+    vcases, vouts, vlines = [], [], []
+    for case in cases:
+        try:
+            viol, proj, vals, stats = run_db_history(case)
+        except Exception as e:  # noqa: BLE001 - loading the pairings, connecting a listener ...: library code on valid input
+            import traceback
+            where = traceback.extract_tb(e.__traceback__)[-1]
+            viol, proj, vals, stats = [("notify/" + type(e).__name__, f"the history could not be run: {type(e).__name__}: {e} (at {where.filename}:{where.lineno})", len(case["events"]))], [], [], {}
+        ctx.evaluations += 1
+        ctx.nontrivial.add(("dbhist", hashlib.sha1(json.dumps(case, sort_keys=True).encode()).hexdigest()))
+        ctx.dist["dbhist"] += 1
+        for key, n in stats.items():
+            ctx.dist["dbhist/" + key] += n
+        seen = set()
+        for sig, what, idx in viol:
+            if sig not in seen:     # one report per signature and history; the failing input is the history up to that event
+                seen.add(sig)
+                ctx.violation(sig, what, dict(case, events=case["events"][:idx + 1]))
+        if viol:
+            continue
+        for who, line, out in proj:
+            mcases.append(dict(case, projection=who))
+            mlines.append(line)
+            mouts.append(out)
+        for fmt, rawhex, got in vals:
+            vcases.append({"stream": "dbvalue", "fmt": fmt, "value": rawhex})
+            vouts.append(got)
+            vlines.append(f"bc.val {fmt if fmt != 'data' else 'other'} {hx(unhx(rawhex).ljust(8, bytes(1)))}")
+    ctx.sample({k: (v if len(str(v)) < 700 else str(v)[:700] + "...") for k, v in cases[0].items()})
+    skipped = {k: n for k, n in ctx.dist.items() if k.startswith(("dbhist/replace/gatt-", "dbhist/rekey/error", "dbhist/rekey/no-new-key"))}
+    if skipped:
+        ctx.notes.append(f"dbhist: connections over the fake radio that did not go as scripted (no verdict drawn from them): {skipped}")
+    compare_with_model(ctx, "dbhist", mcases, mouts, mlines, driver)
+    compare_with_model(ctx, "dbvalue", vcases, vouts, vlines, driver)
 
 
 def run(ctx: Ctx, driver: Driver):
@@ -290,7 +1239,12 @@ def run(ctx: Ctx, driver: Driver):
     ctx.sample({k: (v if len(str(v)) < 500 else str(v)[:500] + "...") for k, v in cases[-1].items()})
     compare_with_model(ctx, "notify", cases, outs, lines, driver)
     compare_with_model(ctx, "value", vcases, vouts, vlines, driver)
+    # histories in which the accessory database of a pairing is replaced between notifications
+    db_stream(ctx, driver)
 
 
 def replay(ctx, driver, c):
+    if isinstance(c, dict) and c.get("stream") == "dbhist":
+        viol, _, _, _ = run_db_history(c)
+        return [{"signature": sig, "what": what} for sig, what, _ in viol] or None
     return None
